@@ -59,7 +59,7 @@ def _one(prop, kind, ident, patch, reverse):
     try:
         tree, ev = d / 'tree', d / 'ev'
         _copy_tree(tree)
-        if kind == 'preserving':
+        if kind == 'preserving' and patch is None:
             r = subprocess.run([PY, str(V / 'sa' / 'audit' / 'preserve.py'), ident, str(tree)], capture_output=True, text=True)
             if r.returncode:
                 return kind, ident, 'skipped', f'transform failed: {r.stderr[-150:]}'
@@ -73,10 +73,29 @@ def _one(prop, kind, ident, patch, reverse):
         shutil.rmtree(d, ignore_errors=True)
 
 
-def run(prop: str, base_violations: int) -> dict:
+def run(prop: str, base_violations: int, consulted=None) -> dict:
     if base_violations:
         return {'audit': 'skipped: the tree itself violates the property; variants are only meaningful on a clean verdict'}
     jobs = [(prop, 'preserving', k, None, False) for k in PRESERVING]
+    # realistic behaviour-preserving maintenance commits (regress/benign): every (patch, property) pair that is not
+    # listed in EXPECTED.json as a known brittleness must be silent
+    bd = V / 'regress' / 'benign'
+    known_brittle = {}
+    try:
+        known_brittle = json.load(open(bd / 'EXPECTED.json')).get('not_silent', {})
+    except Exception:
+        pass
+    brittle_here = sorted(b for b, d in known_brittle.items() if prop in d)
+    untouched = []
+    if bd.is_dir() and os.environ.get('AEIC_VERIF_AUDIT_NO_BENIGN') != '1':
+        for b in sorted(bd.iterdir()):
+            if (b / 'patch.diff').exists() and b.name not in brittle_here:
+                if consulted is not None:
+                    touched = set(re.findall(r'^(?:\+\+\+ b/|--- a/)(\S+)', (b / 'patch.diff').read_text(), re.M))
+                    if not (touched & set(consulted)):
+                        untouched.append(b.name)
+                        continue
+                jobs.append((prop, 'preserving', f'benign/{b.name}', b / 'patch.diff', False))
     sd = V / 'seeded'
     if sd.is_dir():
         for s in sorted(sd.iterdir()):
@@ -108,6 +127,8 @@ def run(prop: str, base_violations: int) -> dict:
             out[kind][ident] = ('caught by ' + ' '.join(info['rules'])) if ok else f'exit {rc}: {info["last"]}'
             if not ok:
                 out['missed'].append(ident)
+    out['benign_not_touching_consulted_files'] = len(untouched)
+    out['known_brittle_benign'] = {b: f'exit {known_brittle[b][prop]}' for b in brittle_here}
     out['applied'] = len(res) - out['skipped']
     out['detected'] = sum(1 for v in out['breaking'].values() if v.startswith('caught'))
     out['silent_ok'] = sum(1 for v in out['preserving'].values() if v == 'silent')
